@@ -595,6 +595,9 @@ class Sim:
                 self.sig[k] = V(self.sig_t[k], x)
                 self.prev[k] = self.sig[k]
         self._run_instant(triggered_all=True)
+        # time 0: objects without initial value are 'U' in VHDL (to_integer gives 0 with a warning, assertions on
+        # metavalues are not meaningful); the arbitrary two-valued stand-in must not raise obligations here
+        self.obligations, self.errors = [], []
         self.time += 1
 
     def instant(self, inputs: dict):
@@ -1087,7 +1090,10 @@ class _Exec:
                     if D.is_c(idx.x):
                         i = int_signed(idx.x)
                         if not bt.in_range(i):
-                            raise Illegal("range", f"target index {i} outside {bt}", tnode.line)
+                            if idx.static:
+                                raise Illegal("range", f"target index {i} outside {bt}", tnode.line)
+                            self.runtime_error(True, f"target index {i} out of range for {bt}")
+                            return base
                         p = bt.pos(i)
                         return V(bt, D.v_set_slice(base.x, p, p, v.x, bt.width))
                     lo, hi = (bt.right, bt.left) if bt.downto else (bt.left, bt.right)
@@ -1102,7 +1108,10 @@ class _Exec:
                     if D.is_c(idx.x):
                         i = int_signed(idx.x)
                         if not (bt.lo <= i <= bt.hi):
-                            raise Illegal("range", f"target index {i} outside {bt}", tnode.line)
+                            if idx.static:
+                                raise Illegal("range", f"target index {i} outside {bt}", tnode.line)
+                            self.runtime_error(True, f"target index {i} out of range for {bt}")
+                            return base
                         xs = list(base.x)
                         xs[i - bt.lo] = v
                         return V(bt, xs)
@@ -1130,7 +1139,10 @@ class _Exec:
                 if D.is_c(idx.x):
                     i = int_signed(idx.x)
                     if not (bt.lo <= i <= bt.hi):
-                        raise Illegal("range", f"target index {i} outside {bt}", base_node.line)
+                        if idx.static:
+                            raise Illegal("range", f"target index {i} outside {bt}", base_node.line)
+                        self.runtime_error(True, f"target index {i} out of range for {bt}")
+                        return b
                     xs = list(b.x)
                     xs[i - bt.lo] = fn(xs[i - bt.lo])
                     return V(bt, xs)
